@@ -1,0 +1,51 @@
+//go:build verif
+
+package api
+
+// ----------------------------------------------------------------------------------------------
+// C08 (F4): every comparator whose input order can depend on map iteration or goroutine arrival
+// is a strict order (asymmetric, transitive) whose ties agree on every compared key, so the sorted
+// result is a function of the set of elements (given distinct keys, established where they are built).
+
+//@ lemma metafileArray_Less_asymmetric C08: forall a metafileArray, i int, j int ::
+//@     0 <= i && i < len(a) && 0 <= j && j < len(a) ==> !(a.Less(i, j) && a.Less(j, i))
+//@ lemma metafileArray_Less_transitive C08: forall a metafileArray, i int, j int, k int ::
+//@     0 <= i && i < len(a) && 0 <= j && j < len(a) && 0 <= k && k < len(a) && a.Less(i, j) && a.Less(j, k) ==> a.Less(i, k)
+//@ lemma metafileArray_Less_total C08: forall a metafileArray, i int, j int ::
+//@     0 <= i && i < len(a) && 0 <= j && j < len(a) && !a.Less(i, j) && !a.Less(j, i) ==> a[i].size == a[j].size && a[i].name == a[j].name
+
+
+// ----------------------------------------------------------------------------------------------
+// C17 (F5): effect licences in rebuildImpl (and the goroutine bodies it spawns).
+//  - An output file (or its directory) is written only when writing is enabled, the build does not write
+//    to stdout, and no error had been logged when the decision was taken: the captured cell
+//    shouldWriteFiles is stored exactly once, with !log.HasErrors(), before the writer goroutines are
+//    created, and no goroutine writes it.
+//  - The writer goroutine returns without writing only if writing is disabled or the file on disk already
+//    has byte-identical contents (bytes.Equal of what ReadFile returned for that path and the new contents).
+//  - A file is removed only under the same enabling conditions.
+//@ effect write-output C17: site=call WriteFile | call MkdirAll ; in=api ; root=rebuildImpl ; guard=true:shouldWriteFiles ; spawn-guard=true:args.write,false:args.options.WriteToStdout ; cell=shouldWriteFiles:!call log.HasErrors() ; returns=false:shouldWriteFiles|after:call WriteFile|after:call MkdirAll|true:call Equal(call ReadFile(result.AbsPath)#0,result.Contents)
+//@ effect remove-stale C17: site=call Remove ; in=api ; root=rebuildImpl ; spawn-guard=true:args.write,false:args.options.WriteToStdout
+
+// ----------------------------------------------------------------------------------------------
+// C20: "Cancel and Dispose return only after the running build has ended": on return either there was
+// no build in progress when the context was inspected, or its wait group has been waited on.
+//@ func (*internalContext).Cancel
+//@   arith int
+//@   prop C20
+//@   opt scenario cancel_dispose_wait
+//@   requires ctx != nil
+//@   ensures waited: old(ctx.activeBuild) == nil || waited(&old(ctx.activeBuild).waitGroup)
+
+//@ func (*internalContext).Dispose
+//@   arith int
+//@   prop C20
+//@   opt scenario cancel_dispose_wait
+//@   requires ctx != nil
+//@   ensures waited: old(ctx.activeBuild) == nil || waited(&old(ctx.activeBuild).waitGroup)
+
+// C20 (F9): the mutable state of a build context is only touched under its mutex.
+//@ protect context-state C20: type=internalContext ; fields=activeBuild,recentBuild,didDispose,latestHashes ; mutex=mutex ; in=api ; allow-wait=(*internalContext).Serve:waits only for the goroutine that starts its own HTTP server which never takes the context mutex
+
+// C20: goroutines that signal a wait group are announced (Add) before they are started.
+//@ waitgroup announce-before-start C20: in=api,bundler,linker
